@@ -4,13 +4,34 @@ From Verif Require Export Css.Sel.
 From Coq Require Import List ZArith NArith Bool.
 Import ListNotations.
 
-(* serialize.go:15: ",!\"#$%&'()*+ -./:;<=>?@[\\]^`{|}~" : bytes 32-47, 58-64, 91-94, 96, 123-126 *)
+(* serialize.go:15: the special characters are , ! dquote # $ % & quote ( ) * + space - . / : ; < = > ? @ [ backslash ] ^ backquote { | } ~
+   i.e. bytes 32-47, 58-64, 91-94, 96, 123-126 *)
 Definition special_char (c : N) : bool :=
   ((32 <=? c) && (c <=? 47) || (58 <=? c) && (c <=? 64) || (91 <=? c) && (c <=? 94) ||
    (c =? 96) || (123 <=? c) && (c <=? 126))%N.
-(* serialize.go:23 escape: strings.NewReplacer over single bytes *)
+(* %x of a byte < 256, lower case, no padding *)
+Definition hex_char (d : N) : N := (if d <? 10 then 48 + d else 87 + d)%N.
+Definition hex_of_byte (c : N) : str :=
+  (if c <? 16 then [hex_char c] else [hex_char (c / 16); hex_char (c mod 16)])%N.
+(* fmt.Sprintf("\\%x ", c) *)
+Definition hex_escape (c : N) : str := [92%N] ++ hex_of_byte c ++ [32%N].
+
+(* serialize.go:16 escape *)
 Definition escape (s : str) : str :=
-  flat_map (fun c => if special_char c then [92%N; c] else [c]) s.
+  flat_map (fun c => if (c <? 32)%N then hex_escape c
+                     else if (c =? 127)%N || special_char c then [92%N; c]
+                     else [c]) s.
+(* serialize.go:36 escapeIdentifier *)
+Definition escape_identifier (s : str) : str :=
+  match s with
+  | c :: r => if ((48 <=? c) && (c <=? 57))%N then hex_escape c ++ escape r else escape s
+  | [] => escape s
+  end.
+(* serialize.go:44 escapeString *)
+Definition escape_string (s : str) : str :=
+  flat_map (fun c => if (c =? 34)%N || (c =? 92)%N then [92%N; c]
+                     else if (c =? 10)%N || (c =? 13)%N || (c =? 12)%N then hex_escape c
+                     else [c]) s.
 
 (* decimal digits of a positive number, most significant first; fuel = number of bits *)
 Fixpoint dec_digits (fuel : nat) (n : N) (acc : str) : str :=
@@ -60,12 +81,12 @@ Fixpoint join (sep : str) (l : list str) : str :=
 
 Fixpoint print_sel (s : sel) : str :=
   match s with
-  | STag t => t                                            (* serialize.go:25 *)
+  | STag t => escape_identifier t                                            (* serialize.go:25 *)
   | SId i => 35%N :: escape i                              (* :32 *)
-  | SClass c => 46%N :: escape c                           (* :36 *)
+  | SClass c => 46%N :: escape_identifier c                           (* :36 *)
   | SAttr key val op ic =>                                 (* :40 *)
-      let v := match op with OpExists => val | _ => [34%N] ++ val ++ [34%N] end in
-      [91%N] ++ key ++ str_of_op op ++ v ++ (if ic then [32;105]%N else []) ++ [93%N]
+      let v := match op with OpExists => val | _ => [34%N] ++ escape_string val ++ [34%N] end in
+      [91%N] ++ escape_identifier key ++ str_of_op op ++ v ++ (if ic then [32;105]%N else []) ++ [93%N]
   | SRel name g =>                                         (* :56 *)
       [58%N] ++ str_of_rel name ++ [40%N] ++ join [44;32]%N (map print_sel g) ++ [41%N]
   | SNth a b last ofType =>                                (* :76 *)
@@ -80,7 +101,7 @@ Fixpoint print_sel (s : sel) : str :=
   | SEmpty => [58;101;109;112;116;121]%N
   | SRoot => [58;114;111;111;116]%N
   | SLink => [58;108;105;110;107]%N
-  | SLang l => [58;108;97;110;103;40]%N ++ l ++ [41%N]     (* :129 *)
+  | SLang l => [58;108;97;110;103;40]%N ++ escape_identifier l ++ [41%N]     (* :129 *)
   | SNever v => v                                          (* :133 *)
   | SEnabled => [58;101;110;97;98;108;101;100]%N
   | SDisabled => [58;100;105;115;97;98;108;101;100]%N
